@@ -47,8 +47,8 @@ def _one_test(args):
     with warnings.catch_warnings():
         warnings.simplefilter("ignore")
         obs = cmi(X, Y, Z, method=info, metric="euclidean", k=k, bandwidth="silverman")
-        if not np.isfinite(obs):
-            return None
+        # (a non-finite observed value -- tied count data under the neighbour estimators -- is tested like any other: the level
+        #  bound speaks about the verdict, whatever the statistic)
         res = shuffle_test(X, Y, Z, obs, alpha=alpha, n_shuffles=n, rng=int(rng.integers(0, 2**31)), information=info, metric="euclidean", k_means=k, bandwidth="silverman")
     return bool(res["Pass"]), float(res["P_value"]), float(obs)
 
@@ -92,6 +92,8 @@ def check(run, driver):
         plans.append((info, kind, N, alpha, n, m))
         if cheap:
             plans.append((info, "count" if info == "gaussian" else kind, N, 0.1, 10, m))
+        if info in ("knn", "kde"):      # count-valued data under the neighbour / kernel estimators (many exact ties; estimates can be non-finite)
+            plans.append((info, "count", N, 0.1, 10, m))
     ntests = len(plans) + 8
     tasks = []
     for pi, (info, kind, N, alpha, n, m) in enumerate(plans):
